@@ -109,6 +109,13 @@ class TCPTransport(KNXIPTransport):
                 except CouldNotParseKNXIP:
                     pass
                 if header.total_length < KNXIPHeader.HEADERLENGTH:
+                    if (
+                        len(raw) < KNXIPHeader.HEADERLENGTH
+                        and raw[0] == KNXIPHeader.HEADERLENGTH
+                    ):
+                        # a header that is rejected before its length has arrived
+                        self._buffer = raw
+                        return
                     # no usable length - the stream can not be resynchronised
                     return
                 if len(raw) < header.total_length:
